@@ -35,6 +35,9 @@ def py_pools():
                P.Instantiate(P.Implies(P.MetaVar(0), P.MetaVar(1)), frozendict({1: P.MetaVar(0)})),
                P.Instantiate(P._and(P.MetaVar(0), P.MetaVar(2)), frozendict({0: P.MetaVar(1)})),
                P.Instantiate(P._and(P.MetaVar(0), P.MetaVar(1)), frozendict({1: P.Symbol('s0')})),
+               # twins: the same definition and the same values under OTHER keys
+               P.Instantiate(P._and(P.MetaVar(0), P.MetaVar(1)), frozendict({0: P.Symbol('s0')})),
+               P.Instantiate(P.Implies(P.MetaVar(0), P.MetaVar(1)), frozendict({1: P.EVar(0)})),
                P.Instantiate(P._or(P.MetaVar(2), P.equiv(P.MetaVar(0), P.MetaVar(1))), frozendict({1: P.EVar(0)})),
                # notation applied to SHIFTED metavariables, partially instantiated: a plug's metavariable is a later key
                P.Instantiate(P._or(P.MetaVar(1), P.MetaVar(2)), frozendict({2: P.Symbol('s0')})),
@@ -436,6 +439,12 @@ def main(argv=None) -> int:
     if thorough:
         extra = list(range(len(S3) - 9, len(S) - 4))  # the size-4 layer
         merge(chk, par.pmap(py_inst_chunk, [(ch, 4, False) for ch in par.chunks(extra, nchunks)]), 'py_inst_', agg)
+    # query histories: the hand-written partial instantiations (and what is built on them) once more in ONE process, forwards
+    # and backwards -- the oracle is absolute, so an answer that depends on what was expanded before shows in one of the orders
+    _, partial_list = py_pools()
+    tail = list(range(len(S3) - len(partial_list) - 4, len(S3)))
+    merge(chk, par.pmap(py_inst_chunk, [(tail, 3, thorough), (tail[::-1], 3, thorough)]), 'py_insthist_', agg)
+    merge(chk, par.pmap(py_subst_chunk, [(tail, 3), (tail[::-1], 3)]), 'py_substhist_', agg)
     # Rust
     mt = universe.meta(4 if thorough else 3)
     rplugs = list(universe.META_POOL[:16 if thorough else 12])
